@@ -354,6 +354,17 @@ def gen_cases(run):
             classification_mode=r.choice(['zero_one', 'prevalence']), n_trees=r.choice([1, 1, 2]),
             bandwidth_mode='adaptive' if (k % 5 == 2 and kernel != 'sum_power_laplace') else 'constant',
             y_1d=(k % 2 == 0), refill_size=r.choice([1500, 12])))
+    # one leaf holding the caller's own float32 tensors (no indexing copy in between), every kernel, with no feature matrix yet
+    # (iters=0: M stays None, the transform is the identity) and with one / two updates
+    for k, (kernel, iters) in enumerate([(a, b) for a in kernels for b in (0, 1, 2)]):
+        if run.tier == 'quick' and k % 2 == 1 and kernel not in ('lpq', 'l1'):
+            continue
+        task = tasks[k % 4]
+        cases.append(dict(
+            family='call-sequences', kernel=kernel, diag=False, task=task, routing='hard', n_threads=None, env0=None,
+            threads0=2, container_x='tensor', container_y='tensor', n=r.choice([12, 24]), d=r.choice([3, 5]), max_leaf_size=40,
+            iters=iters, split_method='pca', seed=r.randint(0, 10 ** 6), dseed=r.randint(0, 10 ** 6),
+            classification_mode='zero_one', n_trees=1, bandwidth_mode='constant', y_1d=False, refill_size=1500))
     # classification with float targets that are already one-hot (multi) / binarised (bin), tensors and float32 arrays
     for k in range(4 if run.tier == 'quick' else 32):
         cases.append(dict(
